@@ -12,7 +12,8 @@
 From Coq Require Import String List ZArith Bool Lia.
 Require Import Blots.Num Blots.gen.Builtins Blots.Ast Blots.Value Blots.Outcome Blots.Binop
                Blots.Env Blots.Eval Blots.BuiltinsHof Blots.Program Blots.EvalInst
-               Blots.proofs.DepthMono Blots.proofs.InstDepth.
+               Blots.EvalFull
+               Blots.proofs.DepthMono Blots.proofs.InstDepth Blots.proofs.FullInst.
 Import ListNotations.
 Open Scope string_scope.
 
@@ -128,4 +129,68 @@ Definition runaway_nested_ops : list stmt :=
 Example C18_runaway_shapes_end_in_depth_error :
   forallb (fun p => is_depth_error (last_result p))
     [runaway_self; runaway_mutual; runaway_via; runaway_map; runaway_do; runaway_nested_ops] = true.
+Proof. vm_compute. reflexivity. Qed.
+
+(* ---- the same two theorems for the evaluator with EVERY transcribed built-in (EvalFull.v:
+   the aggregate, list, string, record built-ins and sort_by / group_by / count_by).  Their
+   premise is FullInst.builtin_full_le: no built-in swallows the depth error of its callback.
+   sort_by did before fix 3b066f5 (F33): it read a failing key call as "equal keys", and the
+   statement below was false for it. ---- *)
+Theorem C18_no_builtin_swallows_the_depth_error : builtin_le builtin_full /\ binop_le binop_impl.
+Proof. exact (conj builtin_full_le binop_impl_le). Qed.
+Check C18_no_builtin_swallows_the_depth_error : builtin_le builtin_full /\ binop_le binop_impl.
+Print Assumptions C18_no_builtin_swallows_the_depth_error.
+
+Theorem C18_limit_dichotomy_full : forall release c e,
+  fst (eval_top release binop_impl builtin_full c e) = ErrDepth \/
+  forall d', LIMIT <= d' ->
+    evalD release binop_impl builtin_full d' c e = eval_top release binop_impl builtin_full c e.
+Proof.
+  intros release c e.
+  destruct (fst (eval_top release binop_impl builtin_full c e)) eqn:E;
+    try (right; intros d' Hd;
+         apply (evalD_depth_independent release binop_impl builtin_full binop_impl_le builtin_full_le);
+         [exact Hd|unfold eval_top in E; rewrite E; discriminate]).
+  left; reflexivity.
+Qed.
+Check C18_limit_dichotomy_full : forall release c e,
+  fst (eval_top release binop_impl builtin_full c e) = ErrDepth \/
+  forall d', LIMIT <= d' ->
+    evalD release binop_impl builtin_full d' c e = eval_top release binop_impl builtin_full c e.
+Print Assumptions C18_limit_dichotomy_full.
+
+Theorem C18_depth_error_is_genuine_full : forall release c e d,
+  d <= LIMIT -> fst (eval_top release binop_impl builtin_full c e) = ErrDepth ->
+  fst (evalD release binop_impl builtin_full d c e) = ErrDepth.
+Proof.
+  intros release c e d Hd H.
+  destruct (fst (evalD release binop_impl builtin_full d c e)) eqn:E; try reflexivity;
+    (assert (Hn : fst (evalD release binop_impl builtin_full d c e) <> ErrDepth) by (rewrite E; discriminate);
+     pose proof (evalD_depth_independent release binop_impl builtin_full binop_impl_le builtin_full_le
+                   d LIMIT c e Hd Hn) as Heq;
+     unfold eval_top in H; rewrite Heq, E in H; discriminate).
+Qed.
+Check C18_depth_error_is_genuine_full : forall release c e d,
+  d <= LIMIT -> fst (eval_top release binop_impl builtin_full c e) = ErrDepth ->
+  fst (evalD release binop_impl builtin_full d c e) = ErrDepth.
+Print Assumptions C18_depth_error_is_genuine_full.
+
+(* runaway recursion through the key function of sort_by / group_by / count_by, two callback
+   calls per level (the F33 shape) *)
+Definition last_result_full (prog : list stmt) : option stmt_result :=
+  match rev (snd (run (eval_full) (init_session []) prog)) with (r, _) :: _ => Some r | [] => None end.
+Definition two (a b : expr) : expr := EList [Cm [] a None; Cm [] b None].
+Definition runaway_by (b : builtin) : list stmt :=
+  [SExpr (EAssign "f" (ELam [AReq "n"]
+      (ECall (EBuiltin b) [two (EBin Add (EId "n") (num 1)) (EBin Add (EId "n") (num 2)); EId "f"])));
+   SExpr (ECall (EId "f") [num 0])].
+Definition runaway_sort_by_lambda : list stmt :=
+  [SExpr (EAssign "f" (ELam [AReq "n"]
+      (ECall (EBuiltin B_sort_by) [two (num 1) (num 2);
+                                   ELam [AReq "x"] (ECall (EId "f") [EBin Add (EId "n") (num 1)])])));
+   SExpr (ECall (EId "f") [num 0])].
+Example C18_runaway_key_functions_end_in_depth_error :
+  forallb (fun p => is_depth_error (last_result_full p))
+    [runaway_by B_sort_by; runaway_by B_group_by; runaway_by B_count_by; runaway_by B_map;
+     runaway_by B_filter; runaway_by B_every; runaway_by B_some; runaway_sort_by_lambda] = true.
 Proof. vm_compute. reflexivity. Qed.
